@@ -35,6 +35,7 @@ STD_ENUMS = {
     'Entry': {'Occupied': 0, 'Vacant': 1},
     'Cow': {'Borrowed': 0, 'Owned': 1},
     'Bound': {'Included': 0, 'Excluded': 1, 'Unbounded': 2},
+    'ErrorKind': {n: i for i, n in enumerate(['NotFound', 'PermissionDenied', 'ConnectionRefused', 'ConnectionReset', 'HostUnreachable', 'NetworkUnreachable', 'ConnectionAborted', 'NotConnected', 'AddrInUse', 'AddrNotAvailable', 'NetworkDown', 'BrokenPipe', 'AlreadyExists', 'WouldBlock', 'NotADirectory', 'IsADirectory', 'DirectoryNotEmpty', 'ReadOnlyFilesystem', 'FilesystemLoop', 'StaleNetworkFileHandle', 'InvalidInput', 'InvalidData', 'TimedOut', 'WriteZero', 'StorageFull', 'NotSeekable', 'QuotaExceeded', 'FileTooLarge', 'ResourceBusy', 'ExecutableFileBusy', 'Deadlock', 'CrossesDevices', 'TooManyLinks', 'InvalidFilename', 'ArgumentListTooLong', 'Interrupted', 'Unsupported', 'UnexpectedEof', 'OutOfMemory', 'InProgress', 'Other', 'Uncategorized'])},
 }
 
 
@@ -193,8 +194,9 @@ class Program:
                 st, tr, line = self.impl_info(f.impl_loc)
                 if self_ty is None or st is None or st != self_ty:
                     continue
-                if trait is not None and tr is not None and tr != trait:
-                    continue
+                derived = not line.startswith('impl')
+                if trait is not None and tr is not None and tr != trait and not derived:
+                    continue            # (derive macros such as thiserror's generate impls of other traits too)
                 if trait is None and tr is not None and c.startswith('<'):
                     continue
                 out.append(f)
@@ -213,6 +215,14 @@ class Program:
             if arg:
                 key = last_seg(arg.group(1))
                 flt = [f for f in out if f.impl_loc and key in self.impl_info(f.impl_loc)[2]]
+                if flt:
+                    out = flt
+        if len(out) > 1 and trait_full:
+            # impls generated by one macro share their location: tell them apart by the parameter type (From<T>::from(T))
+            arg = re.search(r'<(.*)>', trait_full, re.S)
+            if arg:
+                key = last_seg(parse.split_top(arg.group(1))[0])
+                flt = [f for f in out if f.params and last_seg(f.params[0][1]) == key]
                 if flt:
                     out = flt
         if len(out) > 1 and caller is not None:
@@ -267,6 +277,11 @@ class Program:
                     if fm:
                         fields.append(fm.group(1))
                 self.structs.setdefault(m.group(1), fields)
+            m = re.search(r'make_brick_color!\s*\(\s*\{(.*?)\n\}\s*\)', text_nc, re.S)
+            if m:
+                ents = re.findall(r'\[\s*(\w+)\s*,\s*"[^"]*"\s*,\s*(\d+)\s*,', m.group(1))
+                if ents:
+                    self.enums['BrickColor'] = {n: int(v) for n, v in ents}
             # make_variant! { Name(Type), ... }  => Variant and VariantType
             m = re.search(r'make_variant!\s*\{(.*?)\n\}', text_nc, re.S)
             if m:
